@@ -1,4 +1,4 @@
-HOOK_COMMITS = ["f09e006"]
+HOOK_COMMITS = ["f09e006", "b01701e"]
 
 _WIP = "check not landed yet in this revision of /verif (work in progress; see DESIGN.md section 11 for the plan)"
 NOT_APPLICABLE = {("C%02d" % i): _WIP for i in range(1, 21)}
@@ -11,4 +11,19 @@ META = {
         "text": "The property quantifies over a bounded universe; the theorems decide that universe completely for the model (every subset of 8 clocks, every pair, every range) and extend to construction sequences of unbounded length by induction. The correspondence check enumerates the same universe (and the IdMap universe with 2 attributes) on the real code and compares range lists exactly, so a change to ids.rs/id_set.rs/id_map.rs that alters any result on the universe is caught either as a model/implementation disagreement or directly by the bit-set oracle.",
         "note": "Trusted: Coq kernel + VM, the transcription's faithfulness outside the enumerated universe (larger clocks are covered by seeded random programs only), extraction (ExtrOcamlBasic), the OCaml driver and Rust harness printers. Per-client lifting (IdMapInner) is modelled and compared, not proved.",
     },
+}
+
+META["C02"] = {
+    "category": "proof",
+    "design_ref": "DESIGN.md section 6, C02",
+    "technique": "Coq theorems (induction over the delivery loop) about the model's dependency-driven stash: nothing dropped, stash non-empty iff a dependency is absent, liveness for every arrival order; tied to the code by per-step correspondence of has_missing_updates / integrated id set / content under adversarial schedules and all permutations of short histories",
+    "text": "Liveness of a stash is a statement over all arrival orders; the theorem proves it for the model for any permutation of a dependency-closed set and any length. The correspondence then requires the real replica to report missing updates exactly while the model's stash (or pending delete set) is non-empty and to hold exactly the model's closure when it is empty, after every single delivery, including every permutation of histories with up to 5 messages.",
+    "note": "Trusted: the unit-level abstraction of blocks; the implementation's retry bookkeeping is compared, not proved. The pinned tree violated this property (stuck stash); repaired by fix commit 0a72352 (see known_findings.jsonl).",
+}
+META["C04"] = {
+    "category": "proof",
+    "design_ref": "DESIGN.md section 6, C04",
+    "technique": "Coq theorems about the transcribed YATA integration (inserts exactly once, never reorders, lands between its origins, deletion flags are monotone) + per-step identity/order oracle on the real replicas and unit-level correspondence",
+    "text": "Exactly-once, order stability and placement are proved for every list and every item of the model (no bound). Cross-replica agreement of the order is convergence (C01). The harness tracks every unit id on every replica after every step: duplicates and order flips between any two states of any two replicas are violations.",
+    "note": "Trusted: faithfulness of yata_insert to Item::resolve_conflict at unit granularity (checked by the per-step tombstone-order correspondence).",
 }
